@@ -40,7 +40,7 @@ WORDS = ['\U0001F600', 'prog', 'arg1', '-f', 'x', '-r', '--run', '-g', '--gdb', 
 
 def plan(tier, seed):
     if tier == 'quick':
-        return [{'n': 400, 'run': 1, 'gdb': 3} for _ in range(16)]
+        return [{'n': 1500, 'run': 1, 'gdb': 6} for _ in range(16)]
     return [{'n': 8000, 'run': 20, 'gdb': 60} for _ in range(48)]
 
 
